@@ -25,7 +25,9 @@ def _small_text(rng, f, n):
     """Small file content, unique per (file, version number)."""
     parts = []
     r = rng.random()
-    if r < 0.5:
+    if r < 0.015:
+        parts.append(corpus.outlier_text(rng))
+    elif r < 0.5:
         parts.append(rng.choice(corpus.SNIPPETS))
     elif r < 0.7:
         parts.append(corpus.window(rng, 6))
